@@ -71,6 +71,10 @@ func run(prop string) {
 			runReopenAfterReconnect()
 			return
 		}
+		if prop == "C04" && simrt.Chance(1, 10, "udp-open-races-exit-loss") {
+			runUDPOpenRacesExitLoss()
+			return
+		}
 		if prop == "C04" && simrt.Chance(1, 8, "transit-fallback") {
 			runTransitFallback()
 			return
